@@ -2,12 +2,12 @@ import LolHtml.Lemmas.ChunkMain
 /-!
 # C02 — chunk-boundary invariance, and the schedule-independence half of C09
 
-STATUS: **partial**. The full statements are kept below as `def … _statement : Prop`. What is proved
-(for every tokenizer table, every tag configuration, both action sets, every sink) is the machinery of
-the resumption argument up to and including the arm bodies of the DSL and both forms of
-`break_on_end_of_input`; the last assembly steps (`runSeqArms` → `dispatch` → `stateFn` → `runLoop` →
-`Parser.parse` → `TransformStream`) are stated (`C02_step_statement`, `C02_resumption_statement`) but not
-proved. See docs/pkg-chunk.md.
+STATUS: **proved** for every tokenizer table passing the decidable side-condition `WfChunk` (the table
+generated from the Rust sources passes: `C02_wf_gen`), every tag configuration, every settings record and
+every controller of the class `Chunk.TextBlind` (Lemmas/ChunkDisp.lean), under the hypothesis that no run
+involved returns a model panic or the memory error (`Clean`): `C02_chunk_invariance`,
+`C09_schedule_independent`; the intermediate results `C02_step`, `C02_resumption`, `C02_resumption_closed`,
+`C02_dispatcher`, `C02_chunk_vs_single` are of independent use. See docs/pkg-chunk.md.
 
 The comparison is between a *split* run, which sees the input slice `inpS`, and a *whole* run, which
 sees `inpW = pre ++ inpS ++ post` (`Frame inpS inpW δ`, `δ = pre.length`). The machines are related by
@@ -396,5 +396,60 @@ example :
     (sinkBytes (C01.writeAll (C01.genWorld 0) (C01.Rewriter.new (C01.genWorld 0) () {}) [[60], [], [100, 105]]).1.sink).length
     = (sinkBytes ((C01.Rewriter.new (C01.genWorld 0) () {}).write (C01.genWorld 0) [60, 100, 105]).1.sink).length := by
   decide +kernel
+
+/-! ## Non-vacuity of the hypotheses of the final theorems -/
+
+theorem clean_of_all_ok {rs : List CallRes} (h : ∀ r ∈ rs, r = .ok) : Clean rs := by
+  intro r hr
+  rw [h r hr]
+  exact ⟨(fun s hh => by cases hh), (fun hh => by cases hh)⟩
+
+/-- the three runs of `C02_chunk_invariance` on the sample document are clean (all calls succeed) -/
+example : Clean (C01.run (C01.genWorld 31) (C01.Rewriter.new (C01.genWorld 31) () {}) chunking2).2 ∧
+    Clean (C01.run (C01.genWorld 31) (C01.Rewriter.new (C01.genWorld 31) () {}) chunking3).2 ∧
+    Clean (C01.run (C01.genWorld 31) (C01.Rewriter.new (C01.genWorld 31) () {}) [chunking2.flatten]).2 := by
+  refine ⟨clean_of_all_ok ?_, clean_of_all_ok ?_, clean_of_all_ok ?_⟩ <;> decide +kernel
+
+/-- hence, as an instance of the theorem (not by evaluation): the two chunkings give the same sink bytes -/
+example : sinkBytes (C01.run (C01.genWorld 31) (C01.Rewriter.new (C01.genWorld 31) () {}) chunking2).1.sink
+    = sinkBytes (C01.run (C01.genWorld 31) (C01.Rewriter.new (C01.genWorld 31) () {}) chunking3).1.sink := by
+  have h := C02_chunk_invariance_partial 31 {} chunking2 chunking3 (by decide) (by decide) (by decide)
+    (clean_of_all_ok (by decide +kernel)) (clean_of_all_ok (by decide +kernel)) (clean_of_all_ok (by decide +kernel))
+  exact h.2 (by decide +kernel)
+
+/-- the class is inhabited by controllers that do observe text: splitting a text chunk is visible in the
+state only up to `E` (here: a counter of text *bytes*, not of text chunks) -/
+def byteCounter : Controller Nat :=
+  { initialFlags := fun _ => Flags.ofNat 31
+    startTag := fun n _ _ => (n, .flags (Flags.ofNat 31))
+    auxInfo := fun n _ => (n, .ok (Flags.ofNat 31))
+    endTag := fun n _ => (n, Flags.ofNat 31)
+    token := fun n t => match t with
+      | .text b _ _ _ => (n + b.length, { chunks := [b] })
+      | t => (n, { chunks := [t.raw] })
+    shouldEmit := fun _ => true
+    handleEnd := fun n => (n, [], none)
+    bailOut := fun n _ => (n, []) }
+
+theorem byteCounter_textBlind : TextBlind byteCounter Eq where
+  refl := fun _ => rfl
+  trans := fun _ _ _ h1 h2 => h1.trans h2
+  token_norm := fun g t t' h => by
+    cases t <;> cases t' <;> simp only [normToken] at h <;> first | cases h | skip
+    all_goals first | (injection h with h1 h2 h3 h4 h5 h6 h7; subst_vars; rfl) | rfl
+  token_doctype := fun _ _ _ _ _ _ _ _ _ _ => rfl
+  aux_norm := fun _ _ _ _ => Or.inr rfl
+  start := fun g g' n ns h => by subst h; exact ⟨rfl, rfl⟩
+  endT := fun g g' n h => by subst h; exact ⟨rfl, rfl⟩
+  aux := fun g g' i h => by subst h; exact ⟨rfl, rfl⟩
+  emit := fun _ => rfl
+  flags := fun g g' h => by subst h; rfl
+  tok := fun g g' t h _ => by subst h; exact ⟨rfl, rfl, rfl, rfl⟩
+  text_ok := fun g b tt l s => ⟨rfl, rfl, by simp [byteCounter]⟩
+  text_cong := fun g g' b tt l s h => by subst h; rfl
+  text_split := fun g b1 b2 tt l s => by
+    show g + b1.length + b2.length = g + (b1 ++ b2).length
+    rw [List.length_append]; omega
+  handleEnd := fun g g' h => by subst h; exact ⟨rfl, rfl⟩
 
 end LolHtml.Thm.C02
